@@ -5,7 +5,7 @@
     B, adversarial network (Model/Mrp.v).  Quantification is over every
     operation sequence of the adversary/scheduler ([list op]). *)
 From RsM Require Import Lib.MachInt Model.Dedup Model.Mrp Proofs.DedupFacts
-  Proofs.MrpSys Proofs.MrpTheorems Proofs.MrpLive.
+  Proofs.MrpSys Proofs.MrpTheorems Proofs.MrpLive Model.MrpSender Proofs.MrpSender.
 From Coq Require Import Sorted.
 Open Scope N_scope.
 
@@ -161,6 +161,36 @@ Example C09_overtaken_witness :
   let s := run_sys (sys_init 100) ops in
   a_results s = [(100, true)] /\ b_delivered s = [] /\ b_overtaken s = [100].
 Proof. vm_compute. repeat split. Qed.
+
+(** The sender loop ([Sender::tx] / [wait_tx] / [init_send] of exchange.rs,
+    Model/MrpSender.v) for one reliable message, under every behaviour of its
+    environment - time passing, the TX buffer granted late, acknowledgements
+    arriving at any point, OTHER sessions of the node being removed while it
+    waits, its own session being removed - and for every back-off function:
+    consecutive transmissions are at least the back-off apart, there are at
+    most six, and once the acknowledgement has been processed (also while the
+    sender waits for the TX buffer) nothing is transmitted any more. *)
+Theorem C09_sender_never_early : forall (bo : N -> N) (t0 : N) (es : list sev),
+  let s := srun bo (snd_init t0) es in
+  spaced bo (txs s) (cnt s) /\ N.of_nat (length (txs s)) <= MAX_TX.
+Proof. exact sender_never_early. Qed.
+Print Assumptions C09_sender_never_early.
+
+Theorem C09_acked_never_sent_again : forall (bo : N -> N) (s : sender_st) (es : list sev),
+  ph s <> PInitial -> ph s <> PWantBuf true ->
+  txs (srun bo (sstep bo s EvAck) es) = txs s.
+Proof. exact acked_never_sent_again. Qed.
+Print Assumptions C09_acked_never_sent_again.
+
+(** a run with both disturbances: another session goes away during the first
+    back-off (the wait goes on), the timer fires, the acknowledgement arrives
+    while the sender waits for the TX buffer: one transmission only *)
+Example C09_ex_sender :
+  let bo := fun _ : N => 96 in
+  let es := [EvPoll; EvBuf; EvTick 40; EvOtherGone; EvTick 60; EvTimer; EvTick 10; EvAck; EvBuf; EvTick 500; EvTimer; EvBuf] in
+  txs (srun bo (snd_init 1000) es) = [1000] /\ ph (srun bo (snd_init 1000) es) = PDone true /\
+  txs (srun bo (snd_init 1000) [EvPoll; EvBuf; EvTick 40; EvOtherGone; EvTimer; EvBuf; EvTick 60; EvTimer; EvBuf]) = [1100; 1000].
+Proof. vm_compute. repeat split; reflexivity. Qed.
 
 (** hypotheses of [C09_one_copy_one_ack_suffice] on a reachable state: first
     copy lost, one retransmission, which gets through; three more
